@@ -511,7 +511,7 @@ impl<'db> Scorer<'db> {
 
             if poisson.is_infinite() {
                 // Approximately the smallest positive non-zero value representable by f64
-                poisson = 1E-325;
+                poisson = 5E-324;
             }
 
             let isotope_error = score.isotope_error as f32 * NEUTRON;
